@@ -251,7 +251,29 @@ def desugar_internal_iteration(doc):
                     continue
                 ok_variant, ok_value, variants = _TRY_OK[ret_ty["path"]]
             item_ty = hb["locals"][2]["ty"]
+            # `iter.map(|x| g(x)).try_for_each(|y| body)`: the items are produced by a local closure — splice it in front
+            mp = None
+            it_op = t["args"][0]
+            if it_op.get("k") in ("copy", "move") and not it_op["p"].get("p"):
+                m_l = it_op["p"]["l"]
+                mdefs = [bl2["term"] for bl2 in body["blocks"] if bl2["term"].get("k") == "call" and not bl2["term"]["dest"].get("p") and bl2["term"]["dest"]["l"] == m_l]
+                if not mdefs:
+                    # `(&mut map).try_for_each(..)`: one borrow between the adaptor and its consumer
+                    refs = [st2["rv"]["p"]["l"] for bl2 in body["blocks"] for st2 in bl2["stmts"] if st2.get("k") == "assign" and not st2["p"].get("p")
+                            and st2["p"]["l"] == m_l and st2["rv"]["k"] == "ref" and not st2["rv"]["p"].get("p")]
+                    if len(refs) == 1:
+                        m_l = refs[0]
+                        mdefs = [bl2["term"] for bl2 in body["blocks"] if bl2["term"].get("k") == "call" and not bl2["term"]["dest"].get("p") and bl2["term"]["dest"]["l"] == m_l]
+                if len(mdefs) == 1 and ((mdefs[0].get("func") or {}).get("fn") or {}).get("def") == "std::iter::Iterator::map" and len(mdefs[0]["args"]) == 2:
+                    c1 = mdefs[0]["args"][1]
+                    if c1.get("k") in ("copy", "move") and not c1["p"].get("p"):
+                        c1_ty = doc["types"][body["locals"][c1["p"]["l"]]["ty"]]
+                        h1 = fns.get(c1_ty.get("path")) if c1_ty.get("k") == "closure" else None
+                        if h1 is not None and "body" in h1 and h1["body"]["arg_count"] == 2 and len(h1["body"]["blocks"]) <= MAX_BLOCKS:
+                            mp = (mdefs[0], c1, h1)
             _keep_raw(f)
+            if mp is not None:
+                item_ty = mp[2]["body"]["locals"][2]["ty"]
             opt_ty = _new_type(doc, {"s": "std::option::Option<%s>" % doc["types"][item_ty]["s"], "k": "adt", "path": "std::option::Option", "args": [item_ty]})
             bool_like = _find_type(doc, lambda x: x.get("s") == "isize") or item_ty
             sp = t.get("sp")
@@ -276,7 +298,21 @@ def desugar_internal_iteration(doc):
             next_fn = {"def": "std::iter::Iterator::next", "defargs": "std::iter::Iterator::next", "local": False, "targs": fr.get("targs", [])[:1],
                        "trait": "std::iter::Iterator", "rkind": "synthetic"}
             blocks = []
-            blocks.append({"cleanup": False, "stmts": [], "term": {"k": "call", "func": {"k": "const", "ty": fu.get("ty", 0), "fn": next_fn}, "args": [copy.deepcopy(t["args"][0])],
+            h_stmts = []
+            next_arg = copy.deepcopy(t["args"][0])
+            if mp is not None:
+                # next(&mut <the iterator the map adaptor was built on>)
+                inner = mp[0]["args"][0]
+                if inner.get("k") in ("copy", "move") and not inner["p"].get("p"):
+                    in_ty = body["locals"][inner["p"]["l"]]["ty"]
+                    ref_ty = _new_type(doc, {"s": "&mut " + doc["types"][in_ty]["s"], "k": "ref", "mut": True, "inner": in_ty})
+                    body["locals"].append({"ty": ref_ty, "mut": True})
+                    rl = len(body["locals"]) - 1
+                    h_stmts = [{"k": "assign", "p": {"l": rl}, "rv": {"k": "ref", "mut": True, "fake": False, "p": {"l": inner["p"]["l"]}}, "sp": sp}]
+                    next_arg = {"k": "move", "p": {"l": rl}}
+                else:
+                    next_arg = copy.deepcopy(inner)
+            blocks.append({"cleanup": False, "stmts": h_stmts, "term": {"k": "call", "func": {"k": "const", "ty": fu.get("ty", 0), "fn": next_fn}, "args": [next_arg],
                                                                    "dest": {"l": nx}, "dty": opt_ty, "t": N, "unwind": "continue", "src": "Normal", "sp": sp, "fsp": sp}})
             blocks.append({"cleanup": False, "stmts": [{"k": "assign", "p": {"l": dnx}, "rv": {"k": "discr", "p": {"l": nx}, "adt": "std::option::Option", "variants": [["0", "None"], ["1", "Some"]]}, "sp": sp}],
                            "term": {"k": "switch", "discr": {"k": "move", "p": {"l": dnx}}, "dty": bool_like, "targets": [["0", E], ["1", S]], "otherwise": S, "sp": sp}})
@@ -285,9 +321,13 @@ def desugar_internal_iteration(doc):
                       else {"k": "use", "op": {"k": "move", "p": {"l": cl_op["p"]["l"]}}})
             item_place = {"l": nx, "p": [{"k": "downcast", "vi": 1, "adt": "std::option::Option", "variant": "Some"},
                                          {"k": "field", "i": 0, "adt": "std::option::Option", "variant": "Some", "name": "0", "ty": item_ty}], "ty": item_ty}
-            blocks.append({"cleanup": False, "stmts": [{"k": "assign", "p": {"l": off_l + 1}, "rv": env_rv, "sp": sp},
-                                                        {"k": "assign", "p": {"l": off_l + 2}, "rv": {"k": "use", "op": {"k": "move", "p": item_place}}, "sp": sp}],
-                           "term": {"k": "goto", "t": off_b}})
+            if mp is None:
+                blocks.append({"cleanup": False, "stmts": [{"k": "assign", "p": {"l": off_l + 1}, "rv": env_rv, "sp": sp},
+                                                            {"k": "assign", "p": {"l": off_l + 2}, "rv": {"k": "use", "op": {"k": "move", "p": item_place}}, "sp": sp}],
+                               "term": {"k": "goto", "t": off_b}})
+            else:
+                # placeholder, completed below once the map closure's frame has been appended (block S is index nb + 2)
+                blocks.append({"cleanup": False, "stmts": [], "term": {"k": "goto", "t": off_b}})
             if is_try:
                 blocks.append({"cleanup": False, "stmts": [{"k": "assign", "p": {"l": dr}, "rv": {"k": "discr", "p": {"l": off_l}, "adt": ret_ty["path"], "variants": variants}, "sp": sp}],
                                "term": {"k": "switch", "discr": {"k": "move", "p": {"l": dr}}, "dty": bool_like, "targets": [[str(ok_value), H]], "otherwise": X, "sp": sp}})
@@ -355,6 +395,35 @@ def desugar_internal_iteration(doc):
                             t2["t"] = X
             body["blocks"].extend(blocks)
             body["blocks"].extend(new_blocks)
+            if mp is not None:
+                mcall, c1, h1 = mp
+                hb1 = h1["body"]
+                off_l1 = len(body["locals"])
+                off_p1 = len(f.get("promoted", []))
+                body["locals"].extend(copy.deepcopy(hb1["locals"]))
+                if h1.get("promoted"):
+                    f.setdefault("promoted", []).extend(copy.deepcopy(h1["promoted"]))
+                S2 = len(body["blocks"])
+                off_b1 = S2 + 1
+                env1_ty = doc["types"][hb1["locals"][1]["ty"]]
+                env1_rv = ({"k": "ref", "mut": True, "fake": False, "p": {"l": c1["p"]["l"]}} if env1_ty.get("k") == "ref"
+                           else {"k": "use", "op": {"k": "move", "p": {"l": c1["p"]["l"]}}})
+                # S2: the loop closure receives what the map closure returned
+                body["blocks"].append({"cleanup": False, "stmts": [{"k": "assign", "p": {"l": off_l + 1}, "rv": env_rv, "sp": sp},
+                                                                    {"k": "assign", "p": {"l": off_l + 2}, "rv": {"k": "use", "op": {"k": "move", "p": {"l": off_l1}}}, "sp": sp}],
+                                       "term": {"k": "goto", "t": off_b}})
+                mb = copy.deepcopy(hb1["blocks"])
+                for bl1 in mb:
+                    _rw_block(bl1, off_l1, off_b1, off_p1 if h1.get("promoted") else 0, h1["id"])
+                    if bl1["term"]["k"] == "return":
+                        bl1["term"] = {"k": "goto", "t": S2}
+                body["blocks"].extend(mb)
+                # S: the map closure receives the item
+                body["blocks"][S]["stmts"] = [{"k": "assign", "p": {"l": off_l1 + 1}, "rv": env1_rv, "sp": sp},
+                                               {"k": "assign", "p": {"l": off_l1 + 2}, "rv": {"k": "use", "op": {"k": "move", "p": item_place}}, "sp": sp}]
+                body["blocks"][S]["term"] = {"k": "goto", "t": off_b1}
+                f.setdefault("inlined", []).append(h1["id"])
+                done.append((f["id"], h1["id"]))
             f.setdefault("inlined", []).append(h["id"])
             done.append((f["id"], h["id"]))
     return done
